@@ -287,8 +287,6 @@ func (m c05) attack(c *Ctx, s *SchemaSpec, schema *jsonapi.Schema, in []byte, cl
 			c.Count("accepted/NewRequest")
 			if req.Doc != nil {
 				m.checkDoc(c, s, req.Doc, "NewRequest", class, in)
-			} else if method == http.MethodPost || method == http.MethodPatch {
-				c.Violate("request-without-document/"+method, "input %q", clip(string(in), 300))
 			}
 		} else {
 			c.Count("rejected/NewRequest")
